@@ -262,8 +262,10 @@ fn run(ctx: &RunCtx) -> Report {
         }
         // ------------------------------------------------------------------ adaptive mode
         _ => {
-            // 0 reachable public address, 1 behind a restricted-cone NAT, 2 wrong address votes
-            let situation = rng.below(3);
+            // 0 reachable public address, 1 behind a restricted-cone NAT, 2 wrong address votes,
+            // 3 reachable and confirmed at first, then (before the first refresh) every peer starts
+            //   reporting another, unreachable address
+            let situation = rng.below(4);
             let mut spec = NodeSpec::new(pub_ip(&mut rng), 6881);
             spec.bootstrap = addrs.iter().map(|a| a.to_string()).collect();
             if rng.chance(1, 4) {
@@ -281,10 +283,23 @@ fn run(ctx: &RunCtx) -> Report {
                     rawnet.with_peer(i, |p| p.ip_vote = Some(wrong));
                 }
             }
+            let switch_at = rng.range(60, 700) * SEC;
+            let wrong_later = SocketAddrV4::new(pub_ip(&mut rng), 6881);
             let explicit_server = rng.chance(1, 6);
             spec.server_mode = explicit_server;
             let node = sim.add_node(spec);
             let minutes = rng.range(31, 50);
+            if situation == 3 {
+                let rn = rawnet.clone();
+                let t0 = sim.now();
+                sim.at(t0 + switch_at, move |sim| {
+                    for i in 0..rn.len() {
+                        rn.with_peer(i, |p| p.ip_vote = Some(wrong_later));
+                    }
+                    // a lookup whose answers carry the new votes
+                    sim.find_node(node, [0x44; 20]);
+                });
+            }
             // a few lookups along the way
             for _ in 0..rng.usize(0, 5) {
                 let at = sim.now() + rng.range(1, minutes * 60) * SEC;
@@ -322,6 +337,14 @@ fn run(ctx: &RunCtx) -> Report {
                                 report.violate("adaptive", "no-self-ping-sent", format!("the node never pinged the address its peers report ({}) to confirm it; after {minutes} min: server_mode={server_mode} firewalled={firewalled}", sim.node_addr(node)));
                             } else if firewalled || !server_mode {
                                 report.violate("adaptive", "reachable-node-did-not-become-server", format!("after {minutes} min (two refreshes) the reachable adaptive node has server_mode={server_mode} firewalled={firewalled}"));
+                            }
+                        }
+                        3 => {
+                            // the votes changed before the first refresh: the new address was never
+                            // confirmed, so the node may not have become a server
+                            let at_switch = timeline.iter().find(|x| x.0 * 60 > switch_at / SEC + 120).cloned();
+                            if server_mode {
+                                report.violate("adaptive", "unreachable-node-became-server", format!("the node confirmed {} at first, {} s later every peer reported the unreachable {wrong_later}; after {minutes} min server_mode={server_mode} firewalled={firewalled} public_address={public_address:?} (state two minutes after the switch: {at_switch:?})", sim.node_addr(node), switch_at / SEC));
                             }
                         }
                         _ => {
